@@ -19,6 +19,7 @@ type Env struct {
 	vars  map[string]Val
 	pkg   *types.Package
 	held  func(st *State, lockAddr string) string
+	recFuel map[string]string // rec spec fn name -> fuel term to use for calls inside its own definition
 }
 
 func (env *Env) with(name string, v Val) *Env {
@@ -321,6 +322,7 @@ func (env *Env) evalObject(o types.Object, hint types.Type) Val {
 		if isAggregate(c.Type()) {
 			return Val{T: c.Type(), Addr: vc.globalAddr(c)}
 		}
+		vc.globalInitFacts(c)
 		return vc.readGlobal(env.st, "G:"+c.Pkg().Name()+"."+c.Name(), c.Type())
 	}
 	efail("unsupported object %v", o)
@@ -332,6 +334,7 @@ func (vc *VC) globalAddr(v *types.Var) string {
 	if _, ok := vc.decls[n]; !ok {
 		vc.declare(n, "(declare-const "+n+" Int)")
 		vc.axiom("(< " + n + " 0)")
+		vc.globalInitFacts(v)
 	}
 	return n
 }
@@ -508,7 +511,7 @@ func (env *Env) evalIndex(x *EIndex) Val {
 	case *types.Basic:
 		if u.Info()&types.IsString != 0 {
 			i := env.coerceIdx(env.eval(x.I, types.Typ[types.Int]))
-			return Val{T: types.Typ[types.Uint8], C: []string{"(str.at " + base.C[0] + " " + i.C[0] + ")"}}
+			return Val{T: types.Typ[types.Uint8], C: []string{"(gs.at " + base.C[0] + " " + i.C[0] + ")"}}
 		}
 	}
 	efail("cannot index value of type %v", base.T)
@@ -713,7 +716,7 @@ func (env *Env) evalCall(x *ECall, hint types.Type) Val {
 				return Val{T: it, C: []string{v.C[3]}}
 			case *types.Basic:
 				if u.Info()&types.IsString != 0 {
-					return Val{T: it, C: []string{"(str.len " + v.C[0] + ")"}}
+					return Val{T: it, C: []string{"(gs.len " + v.C[0] + ")"}}
 				}
 			case *types.Array:
 				return Val{T: it, C: []string{vc.idx(u.Len())}}
@@ -783,6 +786,19 @@ func (env *Env) evalCall(x *ECall, hint types.Type) Val {
 				return Val{T: types.Typ[types.String], C: []string{vc.strFromBytes(env.st, sl.Elem(), v)}}
 			}
 			efail("string() of %v", v.T)
+		case "arrayof":
+			v := env.eval(x.Args[0], nil)
+			switch u := v.T.Underlying().(type) {
+			case *types.Slice:
+				return Val{T: &ArrT{types.Typ[types.Int], u.Elem()}, C: []string{vc.elemArray(env.st, u.Elem(), v.C[0])}}
+			case *types.Array:
+				addr := v.Addr
+				if addr == "" {
+					addr = v.C[0]
+				}
+				return Val{T: &ArrT{types.Typ[types.Int], u.Elem()}, C: []string{vc.elemArray(env.st, u.Elem(), addr)}}
+			}
+			efail("arrayof(%v)", v.T)
 		case "streq":
 			a := env.eval(x.Args[0], nil)
 			b := env.eval(x.Args[1], nil)
@@ -883,6 +899,13 @@ func (env *Env) callSpec(sf *SpecFn, args []Expr) Val {
 	if len(vc.flat(rt)) != 1 {
 		efail("spec fn %s: composite result", sf.Name)
 	}
+	if sf.Rec && sf.Body != nil {
+		fuel := "(fuelS (fuelS fuelZ))"
+		if f, ok := env.recFuel[name]; ok {
+			fuel = f
+		}
+		actual = append([]string{fuel}, actual...)
+	}
 	if len(actual) == 0 {
 		return Val{T: rt, C: []string{name}}
 	}
@@ -935,19 +958,27 @@ func (vc *VC) declareSpecFn(sf *SpecFn) string {
 		return name
 	}
 	if sf.Rec {
-		// declare first so the body can refer to it, then define via axiom
+		// Fuel-limited unfolding (as in Dafny): user-written applications carry fuel 2; each use of the
+		// definitional axiom consumes one unit, so instantiation cannot loop.
 		if len(sorts) == 0 {
 			efail("recursive spec fn without parameters")
 		}
-		vc.declare(name, "(declare-fun "+name+" ("+strings.Join(sorts, " ")+") "+rs+")")
+		vc.declare("Fuel", "(declare-sort Fuel 0)")
+		vc.declare("fuelZ", "(declare-const fuelZ Fuel)")
+		vc.declare("fuelS", "(declare-fun fuelS (Fuel) Fuel)")
+		vc.declare(name, "(declare-fun "+name+" (Fuel "+strings.Join(sorts, " ")+") "+rs+")")
+		env.recFuel = map[string]string{name: "fl"}
 		body := env.eval(sf.Body, rt)
 		body = env.coerce(body, rt)
-		app := "(" + name
+		args := ""
 		for _, p := range sf.Params {
-			app += " " + strings.Join(env.vars[p.Name].C, " ")
+			args += " " + strings.Join(env.vars[p.Name].C, " ")
 		}
-		app += ")"
-		vc.axiom("(forall (" + strings.Join(binders, " ") + ") (! (= " + app + " " + body.C[0] + ") :pattern (" + app + ")))")
+		appS := "(" + name + " (fuelS fl)" + args + ")"
+		app0 := "(" + name + " fl" + args + ")"
+		bs := "((fl Fuel) " + strings.Join(binders, " ") + ")"
+		vc.axiom("(forall " + bs + " (! (= " + appS + " " + app0 + ") :pattern (" + appS + ")))")
+		vc.axiom("(forall " + bs + " (! (= " + appS + " " + body.C[0] + ") :pattern (" + appS + ")))")
 		return name
 	}
 	// reserve the name to detect accidental recursion
@@ -966,13 +997,16 @@ func (vc *VC) declareSpecFn(sf *SpecFn) string {
 func (vc *VC) strFromBytes(st *State, elem types.Type, v Val) string {
 	i := vc.idxSort()
 	bs := vc.isort(8)
-	if _, ok := vc.decls["str.from"]; !ok {
-		vc.declare("str.from", "(declare-fun str.from ((Array "+i+" "+bs+") "+i+" "+i+") Str)")
-		vc.axiom("(forall ((a (Array " + i + " " + bs + ")) (o " + i + ") (n " + i + ")) (! (=> " + vc.ile(vc.idx(0), "n") + " (= (str.len (str.from a o n)) n)) :pattern ((str.from a o n))))")
-		vc.axiom("(forall ((a (Array " + i + " " + bs + ")) (o " + i + ") (n " + i + ") (k " + i + ")) (! (=> (and " + vc.ile(vc.idx(0), "k") + " " + vc.ilt("k", "n") + ") (= (str.at (str.from a o n) k) (select a " + vc.iadd("o", "k") + "))) :pattern ((str.at (str.from a o n) k))))")
+	if _, ok := vc.decls["gs.from"]; !ok {
+		vc.declare("gs.from", "(declare-fun gs.from ((Array "+i+" "+bs+") "+i+" "+i+") Str)")
+		vc.axiom("(forall ((a (Array " + i + " " + bs + ")) (o " + i + ") (n " + i + ")) (! (=> " + vc.ile(vc.idx(0), "n") + " (= (gs.len (gs.from a o n)) n)) :pattern ((gs.from a o n))))")
+		vc.axiom("(forall ((a (Array " + i + " " + bs + ")) (o " + i + ") (n " + i + ") (k " + i + ")) (! (=> (and " + vc.ile(vc.idx(0), "k") + " " + vc.ilt("k", "n") + ") (= (gs.at (gs.from a o n) k) (select a " + vc.iadd("o", "k") + "))) :pattern ((gs.at (gs.from a o n) k))))")
 	}
 	arr := vc.elemArray(st, elem, v.C[0])
-	return "(str.from " + arr + " " + v.C[1] + " " + v.C[2] + ")"
+	if src, ok := vc.strOfArr[arr]; ok && v.C[1] == vc.idx(0) && v.C[2] == "(gs.len "+src+")" {
+		return src // string([]byte(s)) with the bytes untouched since the conversion
+	}
+	return "(gs.from " + arr + " " + v.C[1] + " " + v.C[2] + ")"
 }
 
 // heldTerm: ghost "current goroutine holds the mutex at addr".
@@ -984,5 +1018,5 @@ func (vc *VC) heldTerm(st *State, addr string) string {
 // strEqExt: extensional equality of two strings (same length, same bytes).
 func (vc *VC) strEqExt(a, b string) string {
 	i := vc.idxSort()
-	return "(and (= (str.len " + a + ") (str.len " + b + ")) (forall ((k " + i + ")) (=> (and " + vc.ile(vc.idx(0), "k") + " " + vc.ilt("k", "(str.len "+a+")") + ") (= (str.at " + a + " k) (str.at " + b + " k)))))"
+	return "(and (= (gs.len " + a + ") (gs.len " + b + ")) (forall ((k " + i + ")) (=> (and " + vc.ile(vc.idx(0), "k") + " " + vc.ilt("k", "(gs.len "+a+")") + ") (= (gs.at " + a + " k) (gs.at " + b + " k)))))"
 }
